@@ -275,8 +275,10 @@ def run(ctx):
         trusted=core.COMMON_TRUSTED + ["cloudpickle / gzip byte formats"],
         assumptions=["Learner2D is exercised since its NumPy 2 / SciPy 1.15 breakage was repaired (fix: commits)"],
         extra={"kinds": dist, "histories_aborted": aborted},
-        partial=["restore-bisimilarity beyond the next ask is not proved in Lean; LearnerND / IntegratorLearner / AverageLearner1D "
-                 "have no Lean model of _get_data/_set_data here"],
+        partial=["Learner1D (exact recomputation) and AverageLearner: restore-bisimilarity is proved - the restored learner and the original "
+                 "agree on losses and on the answer to every later ask after EVERY common continuation (l1d_restore_bisimilar, "
+                 "avg_restore_bisimilar; the hypothesis 'no pending points' is necessary: kernel-checked counterexamples); "
+                 "LearnerND / IntegratorLearner / AverageLearner1D / Learner2D have no Lean model of _get_data/_set_data: twin oracle only"],
     )
 
 
